@@ -367,6 +367,47 @@ func attackWorldC09(c *Ctx, rw *refWorld, seed uint64) {
 					c.Violate("C09/rejected-forgery-changed-state:"+kind, fmt.Sprintf("%s of %s rejected by %s but %v changed", mu.Label, g.Event, nd.Name, diff), wit)
 				}
 			}
+			// the same forgeries right after an unauthenticated reinitialisation message that fails / that
+			// succeeds for an unrelated round id: verification must be back on
+			for ri, reData := range []string{`{"dkg_id":"","threshold":0}`, `{"dkg_id":"` + strings.Repeat("d", 64) + `","threshold":2,"participants":[],"messages":[]}`} {
+				rid := ""
+				if ri == 1 {
+					rid = strings.Repeat("d", 64)
+				}
+				pre := storage.Message{ID: "pre", DkgRoundID: rid, Event: EvReinit, Data: []byte(reData), SenderAddr: "stranger", Signature: []byte("none")}
+				for i, mu := range authMutants(*g, w, r) {
+					if i%5 != (int(g.Offset)+ri)%5 {
+						continue
+					}
+					c.Eval(1)
+					nd.Mem.Restore(m.Snaps[v])
+					var pan interface{}
+					var err error
+					var mid map[string][]byte
+					func() {
+						defer func() { pan = recover() }()
+						_ = nd.Svc.ProcessMessage(pre)
+						mid = nd.Mem.Snapshot()
+						err = nd.Svc.ProcessMessage(mu.Msg)
+					}()
+					after := nd.Mem.Snapshot()
+					w.Board.Truncate(len(all))
+					kind := mu.Label
+					if i := strings.Index(kind, ":"); i > 0 {
+						kind = kind[:i]
+					}
+					c.Distinct(fmt.Sprintf("%s|after-reinit%d|%s|%s|%s", rw.Name, ri, g.Event, stateName, kind))
+					if pan != nil || mid == nil {
+						continue
+					}
+					wit := map[string]interface{}{"world": rw.Name, "genuine_offset": g.Offset, "event": g.Event, "node": nd.Name, "state": stateName, "forgery": mu.Label, "preceded_by": reData}
+					if err == nil {
+						c.Violate("C09/forgery-accepted-after-reinit-message:"+kind, fmt.Sprintf("%s of a genuine %s was accepted by %s right after an unauthenticated reinit_dkg message (%s)", mu.Label, g.Event, nd.Name, trunc(reData, 40)), wit)
+					} else if diff := world.DiffMaps(mid, after, world.Topic+"_offset"); len(diff) > 0 {
+						c.Violate("C09/rejected-forgery-changed-state:"+kind, fmt.Sprintf("%v changed", diff), wit)
+					}
+				}
+			}
 			// wrapped family: the forgery travels inside an unauthenticated reinit message
 			ms := authMutants(*g, w, r)
 			for i, mu := range ms {
